@@ -77,6 +77,13 @@ class SimThread(object):
         self.state = RUNNABLE
         self.started_at = sim.now
         sim.log("thread.start", self.role)
+        if not Sim._stack_set:
+            # deep (adversarial) recursion under sys.settrace needs far more C stack than the 8 MB default
+            try:
+                _thread.stack_size(512 * 1024 * 1024)
+            except (ValueError, RuntimeError):
+                pass
+            Sim._stack_set = True
         _thread.start_new_thread(self._bootstrap, ())
         self._real_started = True
         sim.sync_point("thread.start")
@@ -182,6 +189,8 @@ class Tape(object):
 
 
 class Sim(object):
+    _stack_set = False
+
     def __init__(self, rng, tape_in=None, quantum=2e-6, max_steps=3_000_000,
                  horizon=120.0, p_sync=0.15, p_line=0.0, opcode_funcs=(),
                  trace_root=None, pure_line_cap=400_000, policy="random",
